@@ -353,6 +353,11 @@ class LoopMixin:
         for off in sp.offsets:
             s2.add_index(z3.simplify(off + k))
         self.inv_assume(spec, s2, k, gk, sp)
+        # the iteration's ghost values and index are visible to invariants of loops nested in the body ("ctx." entries are
+        # constants of the iteration: never havocked)
+        for g in gdefs:
+            s2.ghost["ctx." + g.name] = gk[g.name]
+        s2.ghost["ctx.k"] = k
         for g in gdefs:         # before the first iteration every ghost fold is its unit
             s2.fact(z3.Implies(k == 0, gk[g.name] == g.unit()))
         elem = sp.elem(k)
